@@ -8,7 +8,8 @@ import "fmt"
 func Fixtures(r *Run) {
 	sessions, names := fixtureSessions("/repo")
 	r.UndefLimit = 1
-	res := r.Validate("FIX", sessions, nil)
+	res, answered := r.ValidateWithCodecs("FIX", sessions)
+	fmt.Printf("codec values supplied by the environment: %d\n", answered)
 	for _, b := range res.Bad {
 		fmt.Printf("fixture %s: %s\n", names[b.Session], b.Why)
 	}
